@@ -113,16 +113,29 @@ Section S.
 
   Definition cf_meets (f : fleaf) (v : pyval) : Prop := meets orc (fl_fld f) v.
 
+  (* a configuration object handed over as it is must itself be well-formed for the slot it goes to (ConfigWF.obj_ok);
+     histories without such objects (plain_op) need nothing, and objects the model builds from the slot's own schema
+     meet the condition (cf_reachable_x_wf) *)
   Theorem cf_reachable_wf : forall vt ops w dyn vs fs,
-    (forall f n, cf_meets f (cf_default orc f n)) -> ok_fields fleaf fs ->
+    (forall f n, cf_meets f (cf_default orc f n)) -> ok_fields fleaf fs -> objs_ok fleaf cf_meets fs ops ->
     wf_cfg fleaf cf_meets fs
       (run fleaf (cf_validate orc) (cf_to_python orc) (cf_default orc) fl_callable fl_flag (vrun vt) ops
            (fst (build_cfg fleaf (cf_default orc) fl_callable w fs))
            (snd (build_cfg fleaf (cf_default orc) fl_callable w fs)) dyn vs fs).
-  Proof. intros. apply reachable_wf; [exact cf_validate_sound|assumption|assumption]. Qed.
+  Proof. intros. apply reachable_wf; [exact cf_validate_sound|assumption|assumption|assumption]. Qed.
+
+  Theorem cf_reachable_x_wf : forall vt ops w dyn vs fs,
+    (forall f n, cf_meets f (cf_default orc f n)) -> ok_fields fleaf fs ->
+    xobjs_ok fleaf cf_meets fs ops ->
+    wf_cfg fleaf cf_meets fs
+      (run_x fleaf (cf_validate orc) (cf_to_python orc) (cf_default orc) fl_callable fl_flag (vrun vt) ops
+           (fst (build_cfg fleaf (cf_default orc) fl_callable w fs))
+           (snd (build_cfg fleaf (cf_default orc) fl_callable w fs)) dyn vs fs).
+  Proof. intros. apply reachable_x_wf; [exact cf_validate_sound|assumption|assumption|assumption]. Qed.
 
   Theorem cf_step_wf : forall vt ps o w pre c dyn vs fs w' c' oc1,
     (forall f n, cf_meets f (cf_default orc f n)) -> ok_fields fleaf fs -> wf_cfg fleaf cf_meets fs c ->
+    obj_ok fleaf cf_meets fs ps o ->
     at_path fleaf (cf_validate orc) (cf_to_python orc) (cf_default orc) fl_callable fl_flag (vrun vt) ps w pre c dyn vs fs o
       = (w', c', oc1) -> wf_cfg fleaf cf_meets fs c'.
   Proof. intros vt ps o w pre c dyn vs fs w' c' oc1 Hd. apply step_wf; [exact cf_validate_sound|exact Hd]. Qed.
